@@ -249,7 +249,7 @@ pub fn run(ctx: &mut Ctx, prop: &str) {
     }
     // radix literal families and integer digit strings against a few numbers (the conversion runs inside every
     // comparison)
-    for x in al::radix_families().into_iter().chain(al::radix_tails()).chain(al::integer_digit_strings()).chain(al::decimal_strings()) {
+    for x in al::radix_families().into_iter().chain(al::radix_widths()).chain(al::radix_tails()).chain(al::integer_digit_strings()).chain(al::decimal_strings()) {
         if !ctx.mine() {
             continue;
         }
